@@ -230,7 +230,9 @@ pub fn c04(h: &Hist, s: u8, v: &mut Verdicts, prop: &'static str) {
             K::RBeg | K::REnd | K::MBeg | K::MEnd | K::MErr | K::SBeg | K::SEnd | K::SelCb | K::SUnsub => true,
             _ => false,
         };
-        if bad {
+        // on_unsubscribe of a subscriber object shared between stores cannot be attributed to a store
+        let shared = e.k == K::SUnsub && h.subs.get(e.idx as usize).map(|x| x.shared).unwrap_or(false);
+        if bad && !shared {
             let who = if chan_ids.contains(&e.idx) && matches!(e.k, K::SBeg | K::SEnd) { " (channeled subscriber)" } else { "" };
             v.fail(prop, format!("store {}: {}{} for {} ran at seq {} after {} had returned at seq {}", s, e.k.name(), who, id_str(e.a), e.seq, opname, sr.ret));
             break;
